@@ -40,7 +40,9 @@ class Fn:
 class Block:
     """A non-function region (table, enum, constants) cut from /repo and rewritten."""
 
-    def __init__(self, file, start, name, rules=(), end=None, after=None):
+    def __init__(self, file, start, name, rules=(), end=None, after=None, loops=None, nloops=None):
+        self.loops = dict(loops or {})
+        self.nloops = nloops
         self.file = file
         self.start = start
         self.name = name
